@@ -323,8 +323,85 @@ theorem W0_resize (b : Buf) (w hh : Int) (h : W0 b) : W0 (b.resize w hh) := by
     · exact W0c_default
 
 
-theorem stepW_inv (rw : Rune → Int) (sp : WS × Page) (op : WOp) (hok : op.ok rw) (h : SInv p scr sp) :
-    SInv p scr (stepW p rw sp op) := by
+/-! ### LockRegion (screen.go:424, `Tcell.lockRowsG`) as a composition of LockCell / UnlockCell / SetDirty(true) steps -/
+
+theorem pinv_lockCell (b : Buf) (g : Ghost) (pg : Page) (x y : Int) (h : PInv p scr b g pg) :
+    PInv p scr (b.lockCell x y) g pg := by
+  obtain ⟨hg, hpg, hw⟩ := h
+  refine ⟨?_, hpg, ?_⟩
+  · exact Props.C08.ghostInv_step (fun _ => 1) b g (.lockCell x y) hg
+  · intro i j; rw [lockCell_cells]; split
+    · exact W0c_setLock _ _ (hw i j)
+    · exact hw i j
+
+theorem pinv_unlockCell (b : Buf) (g : Ghost) (pg : Page) (x y : Int) (h : PInv p scr b g pg) :
+    ∃ g', PInv p scr (b.unlockCell x y) g' pg := by
+  obtain ⟨hg, hpg, hw⟩ := h
+  refine ⟨g.step b (b.unlockCell x y) (.unlockCell x y), ?_, ?_, ?_⟩
+  · exact Props.C08.ghostInv_step (fun _ => 1) b g (.unlockCell x y) hg
+  · intro i j cc hc
+    apply hpg i j cc
+    simp only [Ghost.step] at hc
+    split at hc
+    · dsimp only at hc
+      split at hc
+      · exact absurd hc (by simp)
+      · exact hc
+    · exact hc
+  · intro i j; rw [unlockCell_cells]; split
+    · exact W0c_markDirty _ (W0c_setLock _ _ (hw i j))
+    · exact hw i j
+
+theorem pinv_setDirtyTrue (b : Buf) (g : Ghost) (pg : Page) (x y : Int) (h : PInv p scr b g pg) :
+    ∃ g', PInv p scr (b.setDirty x y true) g' pg := by
+  obtain ⟨hg, hpg, hw⟩ := h
+  refine ⟨g.step b (b.setDirty x y true) (.setDirty x y true), ?_, ?_, ?_⟩
+  · exact Props.C08.ghostInv_step (fun _ => 1) b g (.setDirty x y true) hg
+  · intro i j cc hc
+    apply hpg i j cc
+    simp only [Ghost.step] at hc
+    split at hc
+    · dsimp only at hc
+      split at hc
+      · simp at hc
+      · exact hc
+    · exact hc
+  · intro i j; rw [setDirty_true_cells]; split
+    · exact W0c_markDirty _ (hw i j)
+    · exact hw i j
+
+theorem pinv_lockRow (x y : Int) (lock : Bool) (pg : Page) : ∀ (n : Nat) (b : Buf) (g : Ghost), PInv p scr b g pg →
+    ∃ g', PInv p scr (lockRow b x y lock n) g' pg := by
+  intro n
+  induction n with
+  | zero => intro b g h; exact ⟨g, h⟩
+  | succ n ih =>
+    intro b g h
+    obtain ⟨g1, h1⟩ := ih b g h
+    simp only [lockRow]
+    split
+    · exact ⟨g1, pinv_lockCell p scr _ g1 pg _ _ h1⟩
+    · exact pinv_unlockCell p scr _ g1 pg _ _ h1
+
+theorem pinv_lockRowsG (x y w : Int) (lock : Bool) (pg : Page) : ∀ (m : Nat) (b : Buf) (g : Ghost), PInv p scr b g pg →
+    ∃ g', PInv p scr (lockRowsG b x y w lock m) g' pg := by
+  intro m
+  induction m with
+  | zero => intro b g h; exact ⟨g, h⟩
+  | succ m ih =>
+    intro b g h
+    obtain ⟨g1, h1⟩ := ih b g h
+    obtain ⟨g2, h2⟩ := pinv_lockRow p scr x (y + m) lock pg w.toNat _ g1 h1
+    simp only [lockRowsG]
+    split
+    · unfold redirtyLeft; split
+      · exact pinv_setDirtyTrue p scr _ g2 pg _ _ h2
+      · exact ⟨g2, h2⟩
+    · exact ⟨g2, h2⟩
+
+
+theorem stepW_inv (fz : Bool) (rw : Rune → Int) (sp : WS × Page) (op : WOp) (hok : op.ok rw) (h : SInv p scr sp) :
+    SInv p scr (stepW p fz rw sp op) := by
   obtain ⟨s, pg⟩ := sp
   obtain ⟨hst, hcl, g, hg, hpg, hw⟩ := h
   simp only at hst hcl hg hpg hw
@@ -356,8 +433,9 @@ theorem stepW_inv (rw : Rune → Int) (sp : WS × Page) (op : WOp) (hok : op.ok 
         · exact hpre
       · exact hw i j
   | fill r st =>
-    refine ⟨hst, hcl, g, ?_, hpg, fun i j => W0c_filled _ r st⟩
-    exact Props.C08.ghostInv_step (fun _ => 1) s.cells g (.fill r st) hg
+    simp only [stepW, WScreen.fillV, fillV_eq]
+    refine ⟨hst, hcl, g, ?_, hpg, fun i j => W0c_filled _ _ st⟩
+    exact Props.C08.ghostInv_step (fun _ => 1) s.cells g (.fill (Cell.fillRune fz rw r) st) hg
   | lockCell x y =>
     refine ⟨hst, hcl, g, ?_, hpg, ?_⟩
     · exact Props.C08.ghostInv_step (fun _ => 1) s.cells g (.lockCell x y) hg
@@ -379,6 +457,9 @@ theorem stepW_inv (rw : Rune → Int) (sp : WS × Page) (op : WOp) (hok : op.ok 
     · intro i j; simp only [stepW]; rw [unlockCell_cells]; split
       · exact W0c_markDirty _ (W0c_setLock _ _ (hw i j))
       · exact hw i j
+  | lockRegion x y w hh lock =>
+    obtain ⟨g', hg'⟩ := pinv_lockRowsG p scr x y w lock pg hh.toNat s.cells g ⟨hg, hpg, hw⟩
+    exact ⟨hst, hcl, g', hg'⟩
   | present =>
     simp only [stepW, WScreen.show, draw, hcl, Bool.false_eq_true, if_false, List.nil_append]
     obtain ⟨g', hg'⟩ := drawRows_inv p s.style s.w s.h.toNat 0 s.cells g pg (by rw [hst]; exact ⟨hg, hpg, hw⟩)
@@ -423,19 +504,19 @@ theorem init_inv : SInv p ({} : Style) (WS.init, Page.blank) := by
     · exact W0c_default
 
 
-theorem runW_inv (rw : Rune → Int) : ∀ (ops : List WOp) (sp : WS × Page), (∀ op ∈ ops, op.ok rw) → SInv p scr sp →
-    SInv p scr (runW p rw sp ops) := by
+theorem runW_inv (fz : Bool) (rw : Rune → Int) : ∀ (ops : List WOp) (sp : WS × Page), (∀ op ∈ ops, op.ok rw) → SInv p scr sp →
+    SInv p scr (runW p fz rw sp ops) := by
   intro ops
   induction ops with
   | nil => intro sp _ h; exact h
   | cons op ops ih =>
     intro sp hok h
     simp only [runW, List.foldl]
-    exact ih _ (fun o ho => hok o (List.mem_cons_of_mem _ ho)) (stepW_inv p scr rw sp op (hok op (List.mem_cons_self ..)) h)
+    exact ih _ (fun o ho => hok o (List.mem_cons_of_mem _ ho)) (stepW_inv p scr fz rw sp op (hok op (List.mem_cons_self ..)) h)
 
 
-theorem runW_append (rw : Rune → Int) (sp : WS × Page) (ops : List WOp) (op : WOp) :
-    runW p rw sp (ops ++ [op]) = stepW p rw (runW p rw sp ops) op := by
+theorem runW_append (fz : Bool) (rw : Rune → Int) (sp : WS × Page) (ops : List WOp) (op : WOp) :
+    runW p fz rw sp (ops ++ [op]) = stepW p fz rw (runW p fz rw sp ops) op := by
   simp [runW, List.foldl_append]
 
 
